@@ -864,7 +864,7 @@ def case_history(p: dict) -> dict:
 
 
 def history_cases(tier: str) -> list[dict]:
-    depth = 3 if tier == "quick" else 4
+    depth = 3 if tier == "quick" else 5
     out = []
     cfgs = [(a, b, "Spectral") for a, b in CFGS] + [("Cardinal", "Cardinal", "Finite Difference")]
     for cfg in cfgs:
